@@ -173,7 +173,12 @@ def ast_classes(node, acc=None, depth=0, md=None):
     d = depth + (1 if cls in NEST and cls != "Compound" else 0)
     md[0] = max(md[0], d)
     for _, c in node.children():
-        ast_classes(c, acc, d, md)
+        if isinstance(c, (list, tuple)):          # pycparser quirk: a list in a single-child slot
+            acc.add("list-in-single-slot")
+            for x in c:
+                ast_classes(x, acc, d, md)
+        else:
+            ast_classes(c, acc, d, md)
     return acc, md[0]
 
 
@@ -222,7 +227,10 @@ LOCALS = "int x, y, z, w, i, j, n, m;"
 EXPR_FORMS = ["y", "1", "y + z", "y * 1", "1 + 2", "-y", "y++", "++y", "y--", "!y", "sizeof(y)", "-1", "(int)y", "y + z + w", "g(y)", "arr[y]",
               "y ? z : 1", "*ptr", "&y", "y = z", "(y, z)", "y * (z + 1)", "-(-y)", "y < z", "y && z", "~y", "st.fld", "ptr->fld", "'a'", "1.5",
               "\"s\"", "sizeof(int)", "(char)1 + (long)2", "y + 1", "1 - y", "y - y", "y * y", "true", "false + y", "y, z++", "(y)", "((y + z))",
-              "+y", "- -y", "!!y", "-y++", "(int)-y", "(int)(y++)", "x", "x + x", "x * y", "y + x", "1 + x"]
+              "+y", "- -y", "!!y", "-y++", "(int)-y", "(int)(y++)", "x", "x + x", "x * y", "y + x", "1 + x",
+              "(ptr + 1)[2]", "(*pp)[1]", "((int*)ptr)[0]", "\"abc\"[1]", "g(y)[1]", "st.arr[1]", "arr[1][2]", "ptr->a[1]", "(y ? arr : ptr)[0]",
+              "(int){1}", "sizeof y++", "sizeof(int[3])", "_Alignof(int)", "y ?: z" if False else "y == z ? y : z", "*&y", "&arr[1]", "g(y, z)(1)",
+              "fp(y)", "(*fp)(y)", "y << z", "y | z", "y / 0", "1 / 0", "y % z", "-1 - -1", "y + (z)", "(y) + (z)", "y + -z", "y + z++", "y++ + ++z"]
 CASTS = ["(int)", "(long)", "(unsigned char)", "(int)(int)", "(int*)", "(T)", "(const int)", "(struct S)", "(void)"]
 
 FAIL_BODIES = ["{0} = {0} + {1}; {1} = {0} + {0};", "{0} = {0} * {0};", "{0} = {1} + {1}; {1} = {0} * {0};", "{0} = {0} + {0};",
@@ -504,14 +512,69 @@ def still_fails(src, f):
     return (not r.get("ok")) and r["exc"] == f["exc"]
 
 
+def _parses(t):
+    try:
+        quick_parse(t)
+        return True
+    except Exception:
+        return False
+
+
+def shrink_text(src, pred, budget=300):
+    """fallback for units the generic tree cannot represent (pycparser puts a list in a single-child slot):
+    greedy deletion of lines, then of `;`-terminated pieces inside a line; keeps parseability."""
+    calls = [0]
+
+    def ok(t):
+        calls[0] += 1
+        return calls[0] <= budget and _parses(t) and pred(t)
+    cur = src
+    progress = True
+    while progress and calls[0] < budget:
+        progress = False
+        lines = cur.split("\n")
+        # whole chunks first (functions are separated by a line holding "}" only)
+        for size in (8, 4, 2, 1):
+            i = 0
+            while i < len(lines) and calls[0] < budget:
+                cand = lines[:i] + lines[i + size:]
+                if len(cand) < len(lines) and ok("\n".join(cand)):
+                    lines, progress = cand, True
+                else:
+                    i += 1
+        cur = "\n".join(lines)
+        # pieces inside a line
+        for li, line in enumerate(cur.split("\n")):
+            parts = line.split("; ")
+            if len(parts) < 2:
+                continue
+            k = 0
+            while k < len(parts) and calls[0] < budget:
+                cand_parts = parts[:k] + parts[k + 1:]
+                ls = cur.split("\n")
+                ls[li] = "; ".join(cand_parts)
+                if cand_parts and ok("\n".join(ls)):
+                    parts, cur, progress = cand_parts, "\n".join(ls), True
+                else:
+                    k += 1
+    return cur
+
+
 def shrink(src, f):
     if f["kind"] in ("harness",):
         return src
     budget = 40 if f["kind"] == "timeout" else 400
+    pred = lambda t: still_fails(t, f)
+    s = None
     try:
-        s = S.shrink_source(src, lambda t: still_fails(t, f), budget=budget)
+        s = S.shrink_source(src, pred, budget=budget)
     except Exception:
-        return src
+        s = None
+    if not s or s == src or not still_fails(s, f):
+        try:
+            s = shrink_text(src, pred, budget=budget)
+        except Exception:
+            s = src
     return s if (s and still_fails(s, f)) else src
 
 
